@@ -238,7 +238,7 @@ static ssize_t sim_read(int fd, void* buf, size_t n) {
         if (g_soft.chunk_mode == 1 && g_soft.chunk > 0 && len > g_soft.chunk) {
             len = g_soft.chunk;
             sim::fault_fired("short read (fixed chunk)");
-        } else if (g_soft.chunk_mode == 2 && len > 1) {
+        } else if (g_soft.chunk_mode == 2 && len > 1 && f.reads < 2000) {
             // random length, biased towards very short and towards "all but a few bytes"
             const uint32_t style = sim::choose(sim::S_IO, 4);
             size_t l = len;
@@ -579,6 +579,16 @@ FILE* __wrap_fdopen(int fd, const char* mode) {
         return f;
     }
     return __real_fdopen(fd, mode);
+}
+
+// expat salts its hash tables with arc4random_buf(); keep runs reproducible
+void __real_arc4random_buf(void*, size_t);
+void __wrap_arc4random_buf(void* buf, size_t n) {
+    if (sim::active()) {
+        memset(buf, 0x5a, n);
+        return;
+    }
+    __real_arc4random_buf(buf, n);
 }
 
 int __wrap_fileno(FILE* f) {
